@@ -1241,12 +1241,18 @@ impl Add for CelValue {
             match lhs {
                 CelValue::Int(val1) => {
                     if let CelValue::Int(val2) = rhs {
-                        return CelValue::from(val1 + val2);
+                        return match val1.checked_add(val2) {
+                            Some(res) => CelValue::from(res),
+                            None => CelValue::from_err(CelError::value("Integer overflow in '+'")),
+                        };
                     }
                 }
                 CelValue::UInt(val1) => {
                     if let CelValue::UInt(val2) = rhs {
-                        return CelValue::from(val1 + val2);
+                        return match val1.checked_add(val2) {
+                            Some(res) => CelValue::from(res),
+                            None => CelValue::from_err(CelError::value("Integer overflow in '+'")),
+                        };
                     }
                 }
                 CelValue::Float(val1) => {
@@ -1313,12 +1319,18 @@ impl Sub for CelValue {
             match lhs {
                 CelValue::Int(val1) => {
                     if let CelValue::Int(val2) = rhs {
-                        return CelValue::from(val1 - val2);
+                        return match val1.checked_sub(val2) {
+                            Some(res) => CelValue::from(res),
+                            None => CelValue::from_err(CelError::value("Integer overflow in '-'")),
+                        };
                     }
                 }
                 CelValue::UInt(val1) => {
                     if let CelValue::UInt(val2) = rhs {
-                        return CelValue::from(val1 - val2);
+                        return match val1.checked_sub(val2) {
+                            Some(res) => CelValue::from(res),
+                            None => CelValue::from_err(CelError::value("Integer overflow in '-'")),
+                        };
                     }
                 }
                 CelValue::Float(val1) => {
@@ -1364,12 +1376,18 @@ impl Mul for CelValue {
             match lhs {
                 CelValue::Int(val1) => {
                     if let CelValue::Int(val2) = rhs {
-                        return CelValue::from(val1 * val2);
+                        return match val1.checked_mul(val2) {
+                            Some(res) => CelValue::from(res),
+                            None => CelValue::from_err(CelError::value("Integer overflow in '*'")),
+                        };
                     }
                 }
                 CelValue::UInt(val1) => {
                     if let CelValue::UInt(val2) = rhs {
-                        return CelValue::from(val1 * val2);
+                        return match val1.checked_mul(val2) {
+                            Some(res) => CelValue::from(res),
+                            None => CelValue::from_err(CelError::value("Integer overflow in '*'")),
+                        };
                     }
                 }
                 CelValue::Float(val1) => {
@@ -1409,7 +1427,10 @@ impl Div for CelValue {
                             return CelValue::from_err(CelError::DivideByZero);
                         }
 
-                        return CelValue::from(val1 / val2);
+                        return match val1.checked_div(val2) {
+                            Some(res) => CelValue::from(res),
+                            None => CelValue::from_err(CelError::value("Integer overflow in '/'")),
+                        };
                     }
                 }
                 CelValue::UInt(val1) => {
@@ -1454,11 +1475,20 @@ impl Rem for CelValue {
             match lhs {
                 CelValue::Int(val1) => {
                     if let CelValue::Int(val2) = rhs {
-                        return CelValue::from(val1 % val2);
+                        if val2 == 0 {
+                            return CelValue::from_err(CelError::DivideByZero);
+                        }
+
+                        // i64::MIN % -1 overflows in hardware although its result, 0, is representable
+                        return CelValue::from(val1.checked_rem(val2).unwrap_or(0));
                     }
                 }
                 CelValue::UInt(val1) => {
                     if let CelValue::UInt(val2) = rhs {
+                        if val2 == 0 {
+                            return CelValue::from_err(CelError::DivideByZero);
+                        }
+
                         return CelValue::from(val1 % val2);
                     }
                 }
@@ -1485,7 +1515,10 @@ impl Neg for CelValue {
 
         match self {
             CelValue::Int(val1) => {
-                return CelValue::from(-val1);
+                return match val1.checked_neg() {
+                    Some(res) => CelValue::from(res),
+                    None => CelValue::from_err(CelError::value("Integer overflow in unary '-'")),
+                };
             }
             CelValue::Float(val1) => {
                 return CelValue::from(-val1);
